@@ -373,6 +373,42 @@ def _build():
     )
 
 
+def emu_spec(pid, level, rule, profile, checker_factory, **kw):
+    from . import emu
+
+    def run_one(seed, run):
+        return runner.result_to_dict(emu.run_emu(pid, seed, run, profile, checker_factory), keep_trace=True)
+
+    def _replay(doc):
+        return emu.run_emu(pid, 0, 0, profile, checker_factory, doc=doc)
+
+    def replay_fn(doc):
+        return [v.to_json() for v in _replay(doc).violations]
+
+    def minimise_fn(doc):
+        want = doc["expected"]["oracle"]
+
+        def test(sub):
+            try:
+                return any(v.oracle == want for v in _replay(dict(doc, trace=sub)).violations)
+            except Exception:  # noqa: BLE001
+                return False
+
+        if not test(doc["trace"]):
+            return doc
+        small = runner.ddmin(list(doc["trace"]), test, budget=80)
+        res = _replay(dict(doc, trace=small))
+        v = [x for x in res.violations if x.oracle == want][0]
+        return dict(doc, trace=res.trace, original_length=len(doc["trace"]), expected={"oracle": want, "msg": v.msg, "step": v.step})
+
+    comps = {
+        "real": ["pulser_simulation.QutipEmulator / Hamiltonian / SimConfig / simresults, QutipBackendV2, QuTiP solvers", "pulser.Sequence and sampler (program construction)"],
+        "model_or_stub": ["RefHam / RefRender / RefProp reference models (simlib/emu.py, simlib/oracles/c06.py)", "owned numpy RNG stream (np.random seeded per step from VERIF_SEED)"],
+        "not_exercised": ["remote backends", "torch"],
+    }
+    return runner.CheckSpec(pid=pid, level=level, rule=rule, run_one=run_one, replay_fn=replay_fn, minimise_fn=minimise_fn, components=comps, known_matchers=known.MATCHERS, **kw)
+
+
 def combine(pid, a, b, every=3, **kw):
     """One check made of two engines: run index % every == every-1 goes to b."""
 
@@ -400,7 +436,19 @@ def combine(pid, a, b, every=3, **kw):
 
 
 def _build2():
+    from . import emu
+
     _c18_reg()
+    _REG["C05"] = emu_spec(
+        "C05",
+        "exploration",
+        "EMU-SIM: a small program (1-3 atoms, 2D/3D, shuffled atom order, every basis combination, XY with a magnetic field, SLM mask, DMM) is built with the SEQ-SIM actors; QutipEmulator.from_sequence is driven through a seeded history of set_config / add_config (noisy configurations drawn with the owned RNG) / run / set_evaluation_times / set_initial_state / reset_config; at t in {0, T} u slot boundaries +-1 u 8 seeded instants get_hamiltonian(t) is compared with RefHam (numpy kron in register order, documented state ordering, per-atom drive from RefRender) on the fresh emulator, after every reset_config and after noise-free steps; non-trivial = >=2 atoms and (>=2 channels or local addressing or SLM/DMM); distinct = distinct (register, program, emulator history)",
+        {"xy_p": 0.3, "n_max": 3, "bw_bias": 0.3},
+        lambda: emu.C05(),
+        runs={"quick": 1500, "thorough": 40000},
+        assumptions=["per-atom drive (Omega, delta, phi) from RefRender; waveform samples from the real code", "the formula is asserted only at instants with at most one active drive per (atom, basis); others are counted and still checked for Hermiticity", "C6 read from the packaged table, C3 from the device"],
+        expected_probes=["multi_atom_hamiltonian", "xy_hamiltonian", "dmm_in_hamiltonian", "checked_after_reset"],
+    )
     c04_tmpl = tmpl_spec(
         "C04",
         "exploration",
